@@ -7,7 +7,7 @@ CONSTANTS
   Limit = 3
   Window = 4
   MaxRound = 3
-  MaxSnaps = 8
+  MaxSnaps = 6
   MaxEarly = 1
   Late = {}
   MaxPub = 1
@@ -19,5 +19,5 @@ CONSTANTS
   Eager = TRUE
   Track = TRUE
 VIEW View
-INVARIANT PassBound5
+PROPERTY NoRescanFresh
 CHECK_DEADLOCK FALSE
